@@ -27,6 +27,7 @@ PROPS = {
 def run_property(prop, tier, root=None, write=True, quiet=False, model=None):
     modname, level = PROPS[prop]
     R = report.Run(prop, tier)
+    R.model = model
     R.lines, R.fresh, R.unrec, R.floor_errors = [], [], [], []
     try:
         if model is None:
